@@ -1,4 +1,5 @@
 import Driver.Term
+import PvModel.Model.Triangular
 /-! `unify <nvars> <k> (u v)*k U V` : C01 cases -/
 namespace Pv.Drv
 open Pv
@@ -38,6 +39,51 @@ def runUnify (ts : Toks) : String :=
               | some (some (σ', _)) =>
                 let tuple := apply σ' u :: apply σ' v :: (List.range nv).map (fun x => σ' x)
                 "ok " ++ showTuple tuple
+          | _ => "bad-case"
+        | none => "bad-case"
+      | none => "bad-case"
+    | none => "bad-case"
+  | none => "bad-case"
+
+/-! `unifyT <nvars> <k> (u v)*k U V` : the same cases through the TRIANGULAR model (Model/Triangular.lean).  The
+    output is the `unify` observable followed by ` ;raw ` and, per case variable, the STORED right-hand side of its
+    binding (`-` when unbound) — what `HashMap::get` returns in the implementation, bound variables unreplaced. -/
+
+def runHistoryT : TSub → List (Term × Term) → Option (Option TSub)
+  | τ, [] => some (some τ)
+  | τ, (a, b) :: hs =>
+    match unifyT unifyFuel unifyFuel τ [] a b with
+    | none => none
+    | some none => some none
+    | some (some (τ', _)) => runHistoryT τ' hs
+
+def allSome : List (Option Term) → Option (List Term)
+  | [] => some []
+  | none :: _ => none
+  | some t :: r => (allSome r).map (t :: ·)
+
+def runUnifyT (ts : Toks) : String :=
+  match nat ts with
+  | some (nv, ts) => match nat ts with
+    | some (k, ts) => match pairs k ts with
+      | some (hist, ts) => match term ts with
+        | some (u, ts) => match term ts with
+          | some (v, []) =>
+            match runHistoryT [] hist with
+            | none => "FUEL"
+            | some none => "history-fails"
+            | some (some τ) =>
+              match unifyT unifyFuel unifyFuel τ [] u v with
+              | none => "FUEL"
+              | some none => "fail"
+              | some (some (τ', _)) =>
+                match allSome ((u :: v :: (List.range nv).map Term.var).map (walkStarT unifyFuel τ')) with
+                | none => "FUEL"
+                | some tuple =>
+                  let raw := (List.range nv).map (fun x => match τ'.get x with
+                    | none => "-"
+                    | some t => showTerm (fun _ => none) t)
+                  "ok " ++ showTuple tuple ++ " ;raw " ++ " , ".intercalate raw
           | _ => "bad-case"
         | none => "bad-case"
       | none => "bad-case"
